@@ -441,7 +441,7 @@ pub fn run(eng: &mut Engine) {
     );
 
     // 2. Random derivations.
-    let cases = eng.tier.pick(800_000u64, 16_000_000u64);
+    let cases = eng.tier.pick(2_000_000u64, 16_000_000u64);
     eng.random(
         "derived-format-strings",
         RandomSpec { cases, max_tape: 96 },
